@@ -201,6 +201,20 @@ theorem C02_comment_opener_guarded (lang : Nat) (dig permit aAC bAC : Bool) (a b
   simp only [forceSpace2, opensCommentPair, ha]
   rcases hb with hb | hb <;> simp [hb, hlen, h1, h2, h3, h4, h5]
 
+/-- **a number that ends in an exponent letter keeps its distance from a sign**: `0x1e + 3` is not written `0x1e+3` (one pp-number) -/
+theorem C02_number_sign_guarded (lang : Nat) (dig permit aAC bAC : Bool) (a b : List CP) (c : CP)
+    (ha : a.getLast? = some c) (hc : c = 101 ∨ c = 69 ∨ c = 112 ∨ c = 80) (h5 : a.take 2 ≠ [64, 34])
+    (hb : b.head? = some 43 ∨ b.head? = some 45) :
+    forceSpace2 lang dig permit a aAC b bAC true = true := by
+  have hne : a ≠ [] := by intro h; simp [h] at ha
+  have hlen : a.length > 0 := by cases a with | nil => exact absurd rfl hne | cons _ _ => simp
+  have h1 : a ≠ [91, 93] := by intro h; subst h; simp at ha; subst ha; rcases hc with h | h | h | h <;> cases h
+  have h2 : a ≠ [123, 123] := by intro h; subst h; simp at ha; subst ha; rcases hc with h | h | h | h <;> cases h
+  have h3 : a ≠ [125, 125] := by intro h; subst h; simp at ha; subst ha; rcases hc with h | h | h | h <;> cases h
+  have h4 : a ≠ [40, 41] := by intro h; subst h; simp at ha; subst ha; rcases hc with h | h | h | h <;> cases h
+  simp only [forceSpace2, extendsNumber, ha]
+  rcases hc with h | h | h | h <;> rcases hb with hb | hb <;> simp [h, hb, hlen, h1, h2, h3, h4, h5]
+
 /-- the former check is a lower bound of the current one: everything `C02_fuse_guard_complete_partial` proves is inherited -/
 theorem C02_forceSpace2_ge (lang : Nat) (dig permit aAC bAC : Bool) (a b : List CP)
     (h : forceSpace lang dig permit a aAC b bAC = true) : forceSpace2 lang dig permit a aAC b bAC = true := by
@@ -208,7 +222,7 @@ theorem C02_forceSpace2_ge (lang : Nat) (dig permit aAC bAC : Bool) (a b : List 
 
 /-- with the new test `a / *p` and `a / /b` are no gaps any more -/
 example : forceSpace2 1 false false [47] false [42] false = true ∧ forceSpace2 1 false false [47] false [47] false = true := by decide
-/-- `0x1e + 3` -> `0x1e+3`, one pp-number (replayed: sp_arith=remove) -/
+/-- `0x1e + 3` -> `0x1e+3`, one pp-number: a gap of the former check; the current code tests for it (`C02_number_sign_guarded`) -/
 theorem C02_fuse_guard_gap_hex_exponent_sign :
     GuardGap 1 1 [48, 120, 49, 101] .number [43] .punct [51] := by decide
 /-- `1 . a` -> `1.a` (replayed with the default configuration: sp_member=remove is the default) -/
